@@ -68,6 +68,9 @@ pub enum BlockMut {
     BadKeyBytes,
     Garbage { seed: u64 },
     Empty,
+    /// well-formed expressions over the ends of every value domain, as literals and as values
+    /// bound from facts: every operator must answer or fail cleanly
+    EvalEdge { seed: u64 },
 }
 
 #[derive(Clone, Debug, PartialEq, Eq, Serialize, Deserialize)]
@@ -219,9 +222,13 @@ fn gen_blockmut(rng: &mut Rng) -> BlockMut {
         Garbage { seed: 1 },
         Garbage { seed: 2 },
         Empty,
+        EvalEdge { seed: 1 },
+        EvalEdge { seed: 2 },
+        EvalEdge { seed: 3 },
+        EvalEdge { seed: 4 },
     ];
     let mut m = rng.pick(&all).clone();
-    if let Garbage { seed } = &mut m {
+    if let Garbage { seed } | EvalEdge { seed } = &mut m {
         *seed = rng.next() >> 8;
     }
     m
@@ -302,6 +309,31 @@ fn nested_closure(depth: usize) -> Vec<schema::Op> {
         ];
     }
     ops
+}
+
+fn edge_terms() -> Vec<schema::TermV2> {
+    use schema::term_v2::Content as C;
+    let t = |c: C| schema::TermV2 { content: Some(c) };
+    let mut v: Vec<schema::TermV2> = [i64::MIN, i64::MIN + 1, -1, 0, 1, 2, 63, 64, 65, i64::MAX].iter().map(|i| term_int(*i)).collect();
+    v.push(term_str(0));
+    v.push(term_str(27));
+    v.push(t(C::Date(0)));
+    v.push(t(C::Date(u64::MAX)));
+    v.push(t(C::Bytes(vec![])));
+    v.push(t(C::Bytes(vec![0xff])));
+    v.push(t(C::Bool(true)));
+    v.push(t(C::Bool(false)));
+    v.push(t(C::Set(schema::TermSet { set: vec![] })));
+    v.push(t(C::Set(schema::TermSet { set: vec![term_int(1)] })));
+    v.push(t(C::Set(schema::TermSet { set: vec![term_int(i64::MIN), term_int(-1)] })));
+    v.push(t(C::Null(schema::Empty {})));
+    v.push(t(C::Array(schema::Array { array: vec![] })));
+    v.push(t(C::Array(schema::Array { array: vec![term_int(-1), term_int(i64::MIN)] })));
+    v.push(t(C::Map(schema::Map { entries: vec![] })));
+    v.push(t(C::Map(schema::Map {
+        entries: vec![schema::MapEntry { key: schema::MapKey { content: Some(schema::map_key::Content::Integer(i64::MIN)) }, value: term_int(-1) }],
+    })));
+    v
 }
 
 /// adds one adversarial item to a (legitimate) block
@@ -448,6 +480,36 @@ pub fn mutate_block(b: &mut schema::Block, m: &BlockMut, previous_symbols: &[Str
             let mut rng = Rng::derive(*seed, "garbage", 0);
             let n = rng.range(1, 40);
             return Some((0..n).map(|_| rng.next() as u8).collect());
+        }
+        EvalEdge { seed } => {
+            b.version = Some(6);
+            let mut rng = Rng::derive(*seed, "evaledge", 0);
+            let terms = edge_terms();
+            // integer operands more often than the rest: arithmetic has the most edges
+            let pick = |rng: &mut Rng| if rng.chance(1, 2) { terms[rng.below(10)].clone() } else { rng.pick(&terms).clone() };
+            for _ in 0..24 {
+                let (a, c) = (pick(&mut rng), pick(&mut rng));
+                let kind = rng.below(28) as i32;
+                match rng.below(6) {
+                    0 => b.checks_v2.push(check_with_ops(vec![op_value(a), op_un(rng.below(4) as i32)])),
+                    1 => {
+                        // operands bound from facts, evaluated inside a rule
+                        b.facts_v2.push(fact(pred(5, vec![a, c])));
+                        b.rules_v2.push(schema::RuleV2 {
+                            head: pred(6, vec![term_var(0)]),
+                            body: vec![pred(5, vec![term_var(0), term_var(1)])],
+                            expressions: vec![schema::ExpressionV2 { ops: vec![op_value(term_var(0)), op_value(term_var(1)), op_bin(kind)] }],
+                            scope: vec![],
+                        });
+                    }
+                    2 => {
+                        let d = pick(&mut rng);
+                        let k2 = rng.below(28) as i32;
+                        b.checks_v2.push(check_with_ops(vec![op_value(a), op_value(c), op_bin(kind), op_value(d), op_bin(k2)]));
+                    }
+                    _ => b.checks_v2.push(check_with_ops(vec![op_value(a), op_value(c), op_bin(kind)])),
+                }
+            }
         }
         Empty => {
             *b = schema::Block {
@@ -1149,6 +1211,7 @@ impl Engine for C09Engine {
     fn generate(&self, run_seed: u64) -> C09Case {
         let mut profile = Profile::default_for("C07");
         profile.max_events = 8;
+        profile.errors = true;
         let scenario = world::generate(run_seed, &profile);
         let mut rng = Rng::derive(run_seed, "attacks", 0);
         let n = rng.range(3, 6);
